@@ -19,3 +19,5 @@ impl StrLike for String { open spec fn sv(&self) -> Seq<char> { self@ } }
 impl<'a> StrLike for &'a String { open spec fn sv(&self) -> Seq<char> { self@ } }
 #[verifier::external_body]
 pub fn string_from<T: StrLike>(t: T) -> (r: String) ensures r@ == t.sv() { unimplemented!() }
+pub assume_specification<'a, T: Copy>[ Option::<&'a T>::copied ](o: Option<&'a T>) -> (r: Option<T>)
+    ensures r == (match o { Some(x) => Some(*x), None => None::<T> });
